@@ -53,7 +53,9 @@ def dieProposal (k w h : α) : α := pyMin w h * k
 /-- tolerance proposed by an allocation whose bounding box is `w × h` (`k` = the literal `1e-12`). -/
 def allocProposal (k w h : α) : α := k * pyMin w h
 /-- tolerance proposed by a netlist: `min` over rectangle sides and `sqrt(area)` of modules, times `1e-12`;
-    `dims` lists those numbers in the order Python visits them, starting from `inf`. -/
+    `dims` lists those numbers in the order Python visits them, starting from `inf`.  A netlist with no such number
+    (terminals only) proposes nothing — since /repo 750ac5a the guarded `set_epsilon` is skipped when the minimum is
+    still `math.inf` — and is then simply absent from the history of proposals (`runHistory`). -/
 def netlistProposal (k inf : α) (dims : List α) : α := dims.foldl pyMin inf * k
 
 end FV.Proc
